@@ -3,7 +3,7 @@ namespace MaddyVerif.Expect.FuncSkelC15
 
 /-- (declaration, fingerprint of its normalised text): comments, layout, local names and log/trace statements do not count -/
 def funcs : List (String × String) := [
-  ("internal/authz/lookup.go:AuthorizeEmailUse", "dd81c30de13bb7c2"),
+  ("internal/authz/lookup.go:AuthorizeEmailUse", "94f1de250ae92d0e"),
   ("internal/authz/normalization.go:NormalizeAuto", "469169839aed8fca"),
   ("internal/authz/normalization.go:NormalizeNoop", "578c5e58653bd003"),
   ("internal/authz/normalization.go:type NormalizeFunc", "4472b469f6958871"),
